@@ -57,6 +57,8 @@ class SliceOperator(LinearOperator):
             )
             raise ValueError(ve)
         for i, shape in enumerate(new_shape):
+            if shape is None:
+                continue
             if len(np.atleast_1d(shape)) != len(self._domain[i].shape):
                 ve = (
                     f"shape of subspace ({i}) is incompatible with the domain"
@@ -67,7 +69,7 @@ class SliceOperator(LinearOperator):
         slc_by_ax = []
         for i, d in enumerate(self._domain):
             if new_shape[i] is None or np.all(
-                np.array(self._domain.shape[i]) == np.array(new_shape[i])
+                np.array(d.shape) == np.array(new_shape[i])
             ):
                 tgt += [d]
             elif np.all(np.array(new_shape[i]) <= np.array(d.shape)):
@@ -88,7 +90,9 @@ class SliceOperator(LinearOperator):
                 )
                 raise ValueError(ve)
 
-            if center:
+            if new_shape[i] is None:
+                slc_by_ax += [slice(None)] * len(d.shape)
+            elif center:
                 for j, n_pix in enumerate(np.atleast_1d(new_shape[i])):
                     slc_start = np.floor((d.shape[j] - n_pix) / 2.).astype(int)
                     slc_end = slc_start + n_pix
